@@ -62,7 +62,7 @@ def strategy(draw, tier="quick"):
             "npts": draw(st.sampled_from([1, 2, 17, 100, 100, 960])), "probe": draw(st.sampled_from([0.0, 0.05, 0.14, 0.14, 0.3])),
             "mode": draw(st.sampled_from(["atom", "atom", "residue"])),
             "change": draw(st.sampled_from([None, None, {"C": 0.2}, {"H": 0.1, "O": 0.16}])),
-            "subset": draw(st.sampled_from(["none", "none", "proper", "residue", "single"])),
+            "subset": draw(st.sampled_from(["none", "none", "proper", "residue", "single", "proper-unsorted", "proper-list"])),
             "n": draw(st.integers(3, 40)), "sep": draw(st.floats(0.05, 1.0)), "offset": draw(st.sampled_from([0.0, 0.0, 20.0]))}
     if kind == "protein":
         case["n"] = draw(st.integers(20, 120))
@@ -225,7 +225,12 @@ def run_case(case):
                 nontrivial = nontrivial or len(sel) < n
             skw = dict(kw)
             if sel is not None:
+                # atom_indices is a set of atoms: its order and its container do not matter
                 skw["atom_indices"] = sel
+                if case["subset"] == "proper-unsorted":
+                    skw["atom_indices"] = sel[rng.permutation(len(sel))]
+                elif case["subset"] == "proper-list":
+                    skw["atom_indices"] = [int(v) for v in sel[::-1]]
             got = md.shrake_rupley(t, mode=case["mode"], **skw)
             # get_mapping=True: the same areas plus, per atom, the column its area is counted in (its own index / its residue's)
             pair = md.shrake_rupley(t, mode=case["mode"], get_mapping=True, **skw)
